@@ -115,6 +115,11 @@ pub struct RefVm<'a> {
     pub xadd_done: u32,
     pub helper_fn: &'a dyn Fn(u32, [u64; 5]) -> Option<u64>,
     pub frame_size_of: &'a dyn Fn(usize) -> u64,
+    /// ALTERNATIVE semantics used only to attribute a violation to a known finding: unsigned
+    /// 64-bit comparisons against an immediate zero-extend it instead of sign-extending it.
+    pub alt_zext_unsigned_imm: bool,
+    /// opcodes at which the alternative semantics changed a branch outcome
+    pub alt_diverged: Vec<u8>,
 }
 
 pub fn no_helpers(_id: u32, _a: [u64; 5]) -> Option<u64> {
@@ -135,18 +140,21 @@ pub struct Setup<'a> {
     pub helper_fn: &'a dyn Fn(u32, [u64; 5]) -> Option<u64>,
     pub frame_size_of: &'a dyn Fn(usize) -> u64,
     pub trace_cap: usize,
+    pub alt_zext_unsigned_imm: bool,
 }
 
 impl<'a> RefVm<'a> {
     pub fn new(s: Setup<'a>) -> RefVm<'a> {
-        let undef = V { v: 0, t: Taint::Undef };
+        // In the alternative (attribution-only) mode the machine mirrors the interpreter's concrete
+        // behaviour: registers and stack start as zeros and helper calls leave r1-r5 alone.
+        let undef = V { v: 0, t: if s.alt_zext_unsigned_imm { Taint::Clean } else { Taint::Undef } };
         let mut reg = [undef; 11];
         reg[1] = V::clean(s.r1);
         let stack_top = s.stack_addr.wrapping_add(512);
         reg[10] = V { v: stack_top, t: Taint::StackRel };
         let mut regions = s.regions;
         let mut st = Region::new("stack", s.stack_addr, &[0u8; 512]);
-        st.taint = vec![1; 512];
+        st.taint = vec![if s.alt_zext_unsigned_imm { 0 } else { 1 }; 512];
         regions.push(st);
         let stack_idx = regions.len() - 1;
         RefVm {
@@ -171,6 +179,8 @@ impl<'a> RefVm<'a> {
             xadd_done: 0,
             helper_fn: s.helper_fn,
             frame_size_of: s.frame_size_of,
+            alt_zext_unsigned_imm: s.alt_zext_unsigned_imm,
+            alt_diverged: Vec::new(),
         }
     }
 
@@ -344,7 +354,20 @@ impl<'a> RefVm<'a> {
                     if t != Taint::Clean {
                         return Outcome::OutOfClaim(if t == Taint::Undef { "branch on undefined value" } else { "branch on raw address" });
                     }
-                    let taken = cond(ins.opc >> 4, info.is64, a.v, b.v);
+                    let mut taken = cond(ins.opc >> 4, info.is64, a.v, b.v);
+                    if self.alt_zext_unsigned_imm
+                        && info.shape == Shape::JmpImm
+                        && info.is64
+                        && matches!(ins.opc >> 4, 1 | 2 | 3 | 5 | 10 | 11)
+                    {
+                        let alt = cond(ins.opc >> 4, true, a.v, ins.imm as u32 as u64);
+                        if alt != taken {
+                            if !self.alt_diverged.contains(&ins.opc) {
+                                self.alt_diverged.push(ins.opc);
+                            }
+                            taken = alt;
+                        }
+                    }
                     if taken {
                         self.br_taken[ins.opc as usize] += 1;
                         let t = this_pc as i64 + 1 + ins.off as i64;
@@ -374,8 +397,10 @@ impl<'a> RefVm<'a> {
                                 self.helper_log.push(HelperCall { pc: this_pc, id, args, arg_clean, depth: frames.len() });
                                 let all_clean = arg_clean.iter().all(|c| *c);
                                 self.reg[0] = V { v: r, t: if all_clean { Taint::Clean } else { Taint::Undef } };
-                                for k in 1..=5 {
-                                    self.reg[k].t = Taint::Undef;
+                                if !self.alt_zext_unsigned_imm {
+                                    for k in 1..=5 {
+                                        self.reg[k].t = Taint::Undef;
+                                    }
                                 }
                             }
                         }
